@@ -106,6 +106,43 @@ func (x *FnIndex) derivesFromPublished(v ssa.Value, seen map[ssa.Value]bool) boo
 	return false
 }
 
+// reslicedPublished: the slice value was obtained by re-slicing (s[:i], s[:0]) memory of a
+// published sorted list, possibly through local variables and earlier appends; appending to it
+// overwrites elements that running executions can see.
+func (x *FnIndex) reslicedPublished(v ssa.Value, seen map[ssa.Value]bool) bool {
+	if seen[v] {
+		return false
+	}
+	seen[v] = true
+	o := x.Origin(v)
+	switch t := o.(type) {
+	case *ssa.Slice:
+		if t.High != nil && x.derivesFromPublished(t.X, map[ssa.Value]bool{}) {
+			return true
+		}
+		return x.reslicedPublished(t.X, seen)
+	case *ssa.Call:
+		if args, ok := builtinCall(t, "append"); ok {
+			return x.reslicedPublished(args[0], seen)
+		}
+	case *ssa.UnOp:
+		if t.Op == token.MUL && x.Cell(t) != nil {
+			for _, pv := range x.PossibleValues(t) {
+				if pv.V != nil && pv.V != o && x.reslicedPublished(pv.V, seen) {
+					return true
+				}
+			}
+			// stores not reaching this particular load still describe what the variable may hold
+			for _, st := range x.stores[x.Cell(t)] {
+				if x.reslicedPublished(st.Val, seen) {
+					return true
+				}
+			}
+		}
+	}
+	return false
+}
+
 // ruleU2: nothing writes into a rule container that may already be published.
 func (c *Ctx) ruleU2(rule string) {
 	n := 0
@@ -157,11 +194,16 @@ func (c *Ctx) ruleU2(rule string) {
 			case *ssa.Call:
 				if args, ok := builtinCall(t, "append"); ok {
 					if sl, ok := args[0].Type().Underlying().(*types.Slice); ok && structName(sl.Elem()) == "RuleEntity" {
-						if s, isSlice := x.Origin(args[0]).(*ssa.Slice); isSlice && s.High != nil {
+						if x.reslicedPublished(args[0], map[ssa.Value]bool{}) {
 							n++
 							k++
 							key := fmt.Sprintf("%s#in-place-append%d", fnName(f), k)
-							c.Check(rule, key, !x.derivesFromPublished(s.X, map[ssa.Value]bool{}), in.Pos(), "append(%s[:i], ...) overwrites elements of memory shared with the published sorted list", x.Describe(s.X))
+							c.Check(rule, key, false, in.Pos(), "append to %s writes into memory shared with the published sorted list (it was obtained by re-slicing that list, so elements visible to running executions are overwritten)", x.Describe(args[0]))
+						} else if s, isSlice := x.Origin(args[0]).(*ssa.Slice); isSlice && s.High != nil {
+							n++
+							k++
+							key := fmt.Sprintf("%s#in-place-append%d", fnName(f), k)
+							c.Check(rule, key, true, in.Pos(), "in-place append on a private copy")
 						}
 					}
 				}
@@ -353,7 +395,48 @@ func (c *Ctx) ruleU3(rule string) {
 		if call != nil {
 			p = call.Pos()
 		}
-		c.Check(rule, "GenginePool.RemoveRules#removes-on-every-instance", ok, p, "the removal must be applied, with the caller's names, to every element of gp.rbSlice")
+		if !ok {
+			// alternative: publish the master's new container to every instance, like the update paths
+			eachInstr(f, func(in ssa.Instruction) {
+				st, isSt := in.(*ssa.Store)
+				if !isSt || !isKcFieldAddr(st.Addr) {
+					return
+				}
+				fa := st.Addr.(*ssa.FieldAddr)
+				u, isU := x.Origin(fa.X).(*ssa.UnOp)
+				if !isU {
+					return
+				}
+				ia, isIA := u.X.(*ssa.IndexAddr)
+				if !isIA {
+					return
+				}
+				if b, isRbs := x.isFieldLoad(ia.X, "GenginePool", "rbSlice"); !isRbs || x.Origin(b) != ssa.Value(f.Params[0]) {
+					return
+				}
+				cell := x.Cell(ia.Index)
+				if cell == nil {
+					return
+				}
+				bound, okB := x.countedFromZero(cell)
+				if !okB {
+					return
+				}
+				bo := x.Origin(bound)
+				if cv, isCv := bo.(*ssa.Convert); isCv {
+					bo = x.Origin(cv.X)
+				}
+				if mb, isMax := x.isFieldLoad(bo, "GenginePool", "max"); isMax && x.Origin(mb) == ssa.Value(f.Params[0]) {
+					if kb, isK := x.isFieldLoad(st.Val, "RuleBuilder", "Kc"); isK {
+						if m2, isM := x.isFieldLoad(kb, "GenginePool", "ruleBuilder"); isM && x.Origin(m2) == ssa.Value(f.Params[0]) {
+							ok = true
+							p = st.Pos()
+						}
+					}
+				}
+			})
+		}
+		c.Check(rule, "GenginePool.RemoveRules#removes-on-every-instance", ok, p, "the removal must reach every instance: applied with the caller's names to every element of gp.rbSlice, or the master's new container stored into gp.rbSlice[i].Kc for all i in [0,max)")
 	}
 	// len(rbSlice) == max by construction: checked in ruleConstruction
 }
